@@ -88,8 +88,8 @@ class Exc:
 
 
 class TypeMark:
-    def __init__(self, name):
-        self.name = name
+    def __init__(self, name, node=None):
+        self.name, self.node = name, node
 
 
 class Arr:
@@ -191,7 +191,7 @@ class Mini:
             for a in n.names:
                 env.v[a.asname or a.name] = Mod(f"{n.module or ''}.{a.name}")
         elif isinstance(n, ast.ClassDef):
-            env.v[n.name] = TypeMark(n.name)
+            env.v[n.name] = TypeMark(n.name, n)
         elif isinstance(n, ast.Assign) and len(n.targets) == 1 and isinstance(n.targets[0], ast.Name):
             try:
                 env.v[n.targets[0].id] = ast.literal_eval(n.value)
@@ -861,6 +861,11 @@ class Mini:
                 raise Unsupported(f"self.{name}")
             deco = [dotted(d) for d in m.decorator_list]
             return Func(m, self.genv, bound_self=None if "staticmethod" in deco else o)
+        if isinstance(o, TypeMark) and o.node is not None:
+            for m in o.node.body:
+                if isinstance(m, ast.FunctionDef) and m.name == name:
+                    return Func(m, self.genv)          # `Class.method`: a plain function (self, if any, is passed explicitly)
+            raise Unsupported(f"{o.name}.{name}")
         if o is None:
             if default is not KeyError:
                 return default
